@@ -65,9 +65,10 @@ def check(run):
         sessions.append((line, ref, [])); kinds.append([nblocks])
     for s_ in refexp.alignment_sweep(rng, range(0, 2101), rotate=True):
         sessions.append(s_); kinds.append(None)
-    res = E.run_sessions(run, sessions, need_rd=False)
+    res = E.run_sessions(run, sessions, need_rd=False, need_model=True)
     seen = set()
     for s, r, k in zip(sessions, res, kinds):
+        E.judge_model(run, s, r)
         run.case(s[0][:300], True, key=s[0])
         run.count("direct-block" if k is not None else "api-session")
         E.record_failures(run, s, judge_valid(s, r, k), seen)
